@@ -400,3 +400,55 @@ def run_b10(chk, repo):
     chk.instance(B10, f'{n} function(s) of update.py select a solver ADVAN')
     if n == 0:
         raise AnalysisError('B10: no caller of solver_to_advan')
+
+
+def run_b11(chk, repo):
+    B11 = chk.rule('B11', 'an option that is replaced through a getter with an implicit default is appended when the record '
+                          'does not spell it', floor=1)
+    # getters with an absent-default: `x = self.get_option...(..); if x is None: x = <constant>`
+    defaults = {}
+    for cls in repo.all_classes():
+        if not cls.module.name.startswith(f'{NM}.records'):
+            continue
+        for name, m in cls.methods.items():
+            if not m.is_property:
+                continue
+            for n in walk_no_nested(m.node):
+                if isinstance(n, ast.If) and isinstance(n.test, ast.Compare) and isinstance(n.test.ops[0], ast.Is) \
+                        and isinstance(n.test.comparators[0], ast.Constant) and n.test.comparators[0].value is None \
+                        and len(n.body) == 1 and isinstance(n.body[0], ast.Assign) \
+                        and isinstance(n.body[0].value, ast.Constant) and isinstance(n.body[0].value.value, str):
+                    defaults[name] = (cls.name, n.body[0].value.value)
+    um = repo.module(f'{NM}.update')
+    n_sites = 0
+    for fname, f in um.functions.items():
+        origin = {}
+        for n in walk_no_nested(f.node):
+            if isinstance(n, ast.Assign) and isinstance(n.targets[0], ast.Name) and isinstance(n.value, ast.Attribute) \
+                    and n.value.attr in defaults:
+                origin[n.targets[0].id] = n.value.attr
+        for c in calls_in(f.node):
+            if isinstance(c.func, ast.Attribute) and c.func.attr == 'replace_option' and c.args \
+                    and isinstance(c.args[0], ast.Name) and c.args[0].id in origin:
+                n_sites += 1
+                prop = origin[c.args[0].id]
+                # an append guarded by an absence test of the same option family
+                fam = defaults[prop][1][:4].upper()
+                guarded = False
+                for t in [x for x in walk_no_nested(f.node) if isinstance(x, ast.If)]:
+                    tt = unparse(t.test)
+                    if ('get_option' in tt or 'has_option' in tt) and fam in tt.upper() and any(
+                            isinstance(a, ast.Call) and isinstance(a.func, ast.Attribute) and a.func.attr == 'append_option'
+                            for s_ in t.body for a in ast.walk(s_)):
+                        guarded = True
+                chk.instance(B11, f'{fname}: replace_option({c.args[0].id} = .{prop}, default {defaults[prop][1]!r}); append when '
+                                  f'absent: {guarded}')
+                if not guarded:
+                    chk.violation(B11, um.rel, fname, unparse(c),
+                                  f'`.{prop}` answers {defaults[prop][1]!r} when the record does not spell the option; replacing '
+                                  f'that text is a no-op, the new value is never written', line=c.lineno,
+                                  witness='a model that went to $DES (TRANS removed) and comes back to ADVAN4: $SUBROUTINE ADVAN4 '
+                                          'without TRANS4 while the code defines CL, V2, Q, V3')
+    chk.instance(B11, f'getters with an implicit default: {sorted(defaults)}')
+    if n_sites == 0:
+        raise AnalysisError('B11: no replace_option through a defaulted getter found')
